@@ -237,9 +237,15 @@ def model(case, k6=False, k10=False):
             continue
         if n.lower() in static_names:
             continue
-        if named[n.lower()][0] != pos:
+        first = min(p2 for p2, (n2, _e) in enumerate(dyn)
+                    if n2 is not None and n2.lower() == n.lower())
+        if pos != first:
             continue
-        if overridden_by_dict(n, pos):
+        # entries whose names differ only by case are one attribute: it
+        # stands where the first one stands and takes the last one's name
+        # and value (char.)
+        lpos, n, e = named[n.lower()]
+        if overridden_by_dict(n, lpos):
             continue
         v = it.eval(e, with_default=True)
         if n in bools:
